@@ -1256,7 +1256,16 @@ impl<'de, R: Read<'de>> Parser<R> {
                     return self.parse_exponent(pos, significand, exponent);
                 }
                 _ => {
-                    return self.f64_from_parts(pos, significand, exponent);
+                    if radix == 10 {
+                        return self.f64_from_parts(pos, significand, exponent);
+                    }
+                    // The digits that did not fit into the significand only count as
+                    // powers of the radix (not of ten).
+                    let f = significand as f64 * f64::from(radix).powi(exponent);
+                    if f.is_infinite() {
+                        return Err(self.error(ErrorCode::NumberOutOfRange));
+                    }
+                    return Ok(if pos { f } else { -f });
                 }
             };
             if digit >= radix {
